@@ -42,6 +42,7 @@ type Plan struct {
 	ElemPad      int     `json:"elem_pad,omitempty"`       // pad each stream element
 	Bad          float64 `json:"bad,omitempty"`            // NaN / Inf here makes the arguments unmarshalable: the call fails in the client before anything is sent
 	ViaSub       bool    `json:"via_sub,omitempty"`        // notify: the notification goes to the channel-returning method (Tok.Sub) instead of Tok.Notify
+	NoCtx        bool    `json:"no_ctx,omitempty"`         // retry: through the retry-tagged client function that takes no context
 	RevRetry     bool    `json:"rev_retry,omitempty"`      // reverse calls go through retry-tagged fields of the reverse client
 	RevBig       int     `json:"rev_big,omitempty"`        // one reverse call whose argument, and therefore the client's response, has this many bytes
 	RevStream    int     `json:"rev_stream,omitempty"`     // the handler subscribes to a stream of this many elements served by the calling client
@@ -670,6 +671,8 @@ type TokClient struct {
 	// cannot be turned into a channel, the call stays in flight
 	Mismatch func(ctx context.Context, tok string, plan Plan) (<-chan Item, error) `rpc_method:"Tok.NotAChan"`
 	NoCtx    func(tok string, plan Plan) (Result, error)                           `rpc_method:"Tok.Call"`
+	// RetryNoCtx: retry-tagged and without a context parameter
+	RetryNoCtx func(tok string, plan Plan) (Result, error) `retry:"true" rpc_method:"Tok.Call"`
 }
 
 // OpenSub subscribes through Sub, or through SubBare when the plan says so (a client function without an error
